@@ -769,7 +769,8 @@ def _mk_eviction(kind, seed, clock_s):
 def _gen_cached(rng):
     return {"policy": rng.choice(EVICTION + ["random", "sampled_lru"]), "cap": rng.choice([4, 8, 16]), "write_back": rng.random() < 0.5,
             "clients": rng.choice([1, 2, 3]), "ops": rng.choice([80, 140]), "keys": rng.choice([24, 60]),
-            "backing_cap": rng.choice([None, None, 20]), "flushes": rng.choice([0, 1, 2, 2])}
+            "backing_cap": rng.choice([None, None, 20]), "flushes": rng.choice([0, 1, 2, 2]),
+            "policy2": rng.choice(["random", "sampled_lru"])}
 
 
 @model("cached_store", "caches", _gen_cached)
@@ -797,9 +798,25 @@ def build_cached_store(p, seed):
         return None
 
     wiper = Proc("wiper", wipe)
-    sim = Simulation(entities=[backing, cache, fl, wiper, *clients])
-    _start_clients(sim, clients)
+    # second, small cache with a *seeded* policy (random / sampled LRU) that is always flushed twice mid-run and refills:
+    # the reset path of every seeded policy is exercised in every run of this model
+    backing2 = KVStore("backing2", read_latency=0.003, write_latency=0.004)
+    for i, k in enumerate(keys):
+        backing2.put_sync(k, f"init#{i}")
+    cache2 = CachedStore("cache2", backing2, 3, _mk_eviction(p.get("policy2", "sampled_lru"), seed + 7, lambda: backing2.now.to_seconds()),
+                         cache_read_latency=0.0002)
+    client2 = KVClient("client-seeded", cache2, keys, p["ops"], mix=(0.8, 0.2, 0.0))
+
+    def wipe2(self, ev):
+        cache2.invalidate_all()
+        return None
+
+    wiper2 = Proc("wiper2", wipe2)
+    sim = Simulation(entities=[backing, cache, fl, wiper, backing2, cache2, wiper2, client2, *clients])
+    _start_clients(sim, [*clients, client2])
     span = 0.003 * p["ops"]
+    for frac in (0.3, 0.6):
+        sim.schedule(Event(time=at(span * frac), event_type="InvalidateAll", target=wiper2))
     for i in range(p.get("flushes", 0)):
         sim.schedule(Event(time=at(span * (i + 1) / (p.get("flushes", 0) + 1.5)), event_type="InvalidateAll", target=wiper))
     if p["write_back"]:
@@ -811,7 +828,10 @@ def build_cached_store(p, seed):
         s.probe("cache_eviction_random_policy", p["policy"] in ("random", "sampled_lru") and cache.stats.evictions > 0)
         s.probe("cache_writeback_flush", getattr(fl, "flushed", 0) > 0)
         s.probe("cache_invalidated_then_evicted_again", wiper.calls > 0 and cache.stats.evictions > 0)
-        s.probe("seeded_policy_cleared_mid_run", wiper.calls > 0 and p["policy"] in ("random", "sampled_lru") and cache.stats.evictions > 0)
+        s.probe("seeded_policy_cleared_mid_run", wiper2.calls > 0 and cache2.stats.evictions > 0)
+        s.add("cache2", cache2.stats)
+        s.add("cache2.keys", cache2.get_cached_keys())
+        _client_stats(s, [client2])
         s.add("cache.hit_rate", cache.hit_rate)
         s.add("cache.cached_keys", cache.get_cached_keys())
         s.add("cache.dirty", sorted(cache.get_dirty_keys()))
@@ -2263,7 +2283,8 @@ class _ParallelRun:
 
 def _gen_parallel(rng):
     return {"senders": rng.choice([2, 3, 4]), "receivers": rng.choice([1, 2]), "rate": rng.choice([50.0, 100.0]), "loss": rng.choice([0.0, 0.3, 0.5]),
-            "latency": rng.choice([None, "exp", "exp"]), "window": rng.choice([None, 0.01]), "horizon": rng.choice([1.0, 2.0]), "ack": rng.random() < 0.5}
+            "latency": rng.choice([None, "seeded", "seeded"]), "window": rng.choice([None, 0.01]), "horizon": rng.choice([1.0, 2.0]), "ack": rng.random() < 0.5,
+            "ties": rng.random() < 0.3}
 
 
 @model("parallel_links", "parallel", _gen_parallel)
@@ -2271,8 +2292,20 @@ def build_parallel_links(p, seed):
     """Sender partitions (constant-rate sources, deterministic handlers: no module-level random in worker threads) forward to
     recorder partitions over PartitionLinks with packet loss and / or a sampled latency override — both drawn by the
     coordinator from its seeded generator while it exchanges the outboxes; several partitions send in every window."""
-    from happysimulator.distributions.exponential import ExponentialLatency
     from happysimulator.parallel import ParallelSimulation, PartitionLink, SimulationPartition
+
+    class SeededDelay:
+        """Latency override of a link: the coordinator calls .sample() (seconds) for every event it carries over.
+        (A LatencyDistribution, which the PartitionLink annotation names, has no sample() — AttributeError in
+        WindowedCoordinator._exchange_events; functional defect outside C03, so the model brings its own sampler.)"""
+
+        def __init__(self, s):
+            self.rng = random.Random(s)
+
+        def sample(self):
+            return 0.02 + self.rng.random() * 0.02
+
+    ties = bool(p.get("ties"))
 
     if p["loss"] == 0.0 and p["latency"] is None:
         p = {**p, "loss": 0.3}
@@ -2284,7 +2317,8 @@ def build_parallel_links(p, seed):
         def rec(self, ev):
             log.append((ev.time.nanoseconds, ev.event_type, ev.context.get("seq")))
             if p["ack"] and ev.context.get("seq", 0) % 5 == 0:
-                return [Event(time=self.now + 0.03, event_type=f"ack_{self.name}", target=ev.context["from"], context={"seq": ev.context["seq"]})]
+                return [Event(time=self.now + 0.03 + (0.0 if ties else 0.0003 * (1 + int(self.name[3:]))), event_type=f"ack_{self.name}",
+                              target=ev.context["from"], context={"seq": ev.context["seq"]})]
             return None
         return Proc(name, rec)
 
@@ -2299,7 +2333,10 @@ def build_parallel_links(p, seed):
                 return None
             state["sent"] += 1
             tgt = recorders[(state["sent"] + k) % len(recorders)]
-            return [Event(time=self.now + 0.02, event_type=f"from_{name}", target=tgt, context={"seq": state["sent"], "from": self})]
+            # ties=False: every sender has its own sub-millisecond offset, so two partitions never address the same instant
+            # at one recorder (cross-partition same-instant order is a recorded finding of its own)
+            return [Event(time=self.now + 0.02 + (0.0 if ties else 0.0007 * (k + 1)), event_type=f"from_{name}", target=tgt,
+                          context={"seq": state["sent"], "from": self})]
         pr = Proc(name, snd)
         pr.state = state
         return pr
@@ -2311,10 +2348,10 @@ def build_parallel_links(p, seed):
         parts.append(SimulationPartition(name=f"p{i}", entities=[sd], sources=[src]))
     for j, rc in enumerate(recorders):
         parts.append(SimulationPartition(name=f"r{j}", entities=[rc]))
-    lat = (lambda: ExponentialLatency(0.015)) if p["latency"] == "exp" else (lambda: None)
+    shared_delay = SeededDelay(sub(seed, 52)) if p["latency"] == "seeded" else None      # one sampler for all links: draw order matters
     for i in range(len(senders)):
         for j in range(len(recorders)):
-            links.append(PartitionLink(f"p{i}", f"r{j}", min_latency=0.02, latency=lat(), packet_loss=p["loss"]))
+            links.append(PartitionLink(f"p{i}", f"r{j}", min_latency=0.02, latency=shared_delay, packet_loss=p["loss"]))
             if p["ack"]:
                 links.append(PartitionLink(f"r{j}", f"p{i}", min_latency=0.02))
     psim = ParallelSimulation(partitions=parts, links=links, end_time=at(p["horizon"]), window_size=p["window"], seed=sub(seed, 51))
@@ -2351,7 +2388,7 @@ VARIANT = {
     "swim": lambda p: p["link"],
     "lsm_wal": lambda p: f"{p['strategy']}-wal_{p['wal']}",
     "btree": lambda p: "disk" if p["disk"] else "nodisk",
-    "cached_store": lambda p: p["policy"] + ("-wb" if p["write_back"] else ""),
+    "cached_store": lambda p: p["policy"] + ("-wb" if p["write_back"] else "") + "+" + p.get("policy2", "none"),
     "soft_ttl_cache": lambda p: "bounded" if p["cap"] else "unbounded",
     "multi_tier_cache": lambda p: f"{p['l1']}+{p['l2']}",
     "sharded_store": lambda p: p["strategy"],
@@ -2377,6 +2414,7 @@ VARIANT = {
     "fault_schedule": lambda p: "+".join(p["extra"]),
     "dying_run": lambda p: p["how"],
     "prepared_events": lambda p: "built-before-sim" if p["before_sim"] else "built-after-sim",
-    "parallel_links": lambda p: ("loss" if p["loss"] else "noloss") + ("+latency" if p["latency"] else "") + ("+ack" if p["ack"] else ""),
+    "parallel_links": lambda p: ("ties" if p.get("ties") else "noties") + ("+loss" if p["loss"] or not p["latency"] else "")
+    + ("+latency" if p["latency"] else "") + ("+ack" if p["ack"] else ""),
 }
 assert set(VARIANT) == set(ZOO), set(VARIANT) ^ set(ZOO)
